@@ -370,7 +370,9 @@ def make_driver(name: str, rnd: random.Random):
         mc = cls(atoms, temperature=T, pressure=special(round(rnd.uniform(0.001, 0.1), 5), 0.0, -0.01, 1.0), max_cycles=rnd.randint(2, 6), **kw)
     elif name == "Isotension":
         a = [round(rnd.uniform(-0.05, 0.05), 5) for _ in range(6)]
-        S = special(np.array([[a[0], a[3], a[4]], [a[3], a[1], a[5]], [a[4], a[5], a[2]]]), np.zeros((3, 3)), np.eye(3) * a[0])
+        S = special(np.array([[a[0], a[3], a[4]], [a[3], a[1], a[5]], [a[4], a[5], a[2]]]), np.zeros((3, 3)), np.eye(3) * a[0],
+                    np.array([[0.0, a[3], 0.0], [0.0, 0.0, 0.0], [0.0, 0.0, 0.0]]),  # a shear given in the upper triangle only
+                    np.array([[a[0], a[3], a[4]], [-a[3], a[1], a[5]], [0.5 * a[4], 0.0, a[2]]]))
         mc = cls(atoms, temperature=T, pressure=special(round(rnd.uniform(0.001, 0.1), 5), 0.0, -0.01, 1.0), external_stress=S, max_cycles=rnd.randint(2, 6), **kw)
     elif name == "GrandCanonical":
         ex = Atoms("CO", positions=[[0, 0, 0], [0, 0, 1.13]])
